@@ -12,8 +12,12 @@ import (
 	"sync/atomic"
 	"time"
 
+	"github.com/mandykoh/prism/adobergb"
 	"github.com/mandykoh/prism/ciexyz"
+	"github.com/mandykoh/prism/displayp3"
 	"github.com/mandykoh/prism/linear"
+	"github.com/mandykoh/prism/prophotorgb"
+	"github.com/mandykoh/prism/srgb"
 
 	"verifharness/internal/core"
 	"verifharness/internal/refcolor"
@@ -25,6 +29,8 @@ type c03Case struct {
 	Space string     `json:"space"`
 	Kind  string     `json:"kind"`
 	In    [3]float32 `json:"in"`
+	// Built: for the edited-value cases, what the value was constructed from before its channels were set to In
+	Built *[3]float32 `json:"built,omitempty"`
 }
 
 // published variants accepted for each declared chromaticity (6-digit and
@@ -175,6 +181,53 @@ func c03Point(s *libSpace, p *c03Probed, in [3]float32) (kind, msg string, worst
 	return "", "ok", worst
 }
 
+func clampF(v float32) float32 {
+	if v < 0 {
+		return 0
+	}
+	if v > 1 {
+		return 1
+	}
+	return v
+}
+
+// c03EditedToXYZ builds a colour value with the named constructor from `built`, overwrites its
+// exported channels with `now`, and converts it.
+func c03EditedToXYZ(space, how string, built, now [3]float32) (ciexyz.Color, bool) {
+	xyz := ciexyz.Color{X: built[0], Y: built[1], Z: built[2]}
+	switch space {
+	case "srgb":
+		c := srgb.ColorFromLinear(built[0], built[1], built[2])
+		if how == "ColorFromXYZ" {
+			c = srgb.ColorFromXYZ(xyz)
+		}
+		c.R, c.G, c.B = now[0], now[1], now[2]
+		return c.ToXYZ(), true
+	case "adobergb":
+		c := adobergb.ColorFromLinear(built[0], built[1], built[2])
+		if how == "ColorFromXYZ" {
+			c = adobergb.ColorFromXYZ(xyz)
+		}
+		c.R, c.G, c.B = now[0], now[1], now[2]
+		return c.ToXYZ(), true
+	case "prophotorgb":
+		c := prophotorgb.ColorFromLinear(built[0], built[1], built[2])
+		if how == "ColorFromXYZ" {
+			c = prophotorgb.ColorFromXYZ(xyz)
+		}
+		c.R, c.G, c.B = now[0], now[1], now[2]
+		return c.ToXYZ(), true
+	case "displayp3":
+		c := displayp3.ColorFromLinear(built[0], built[1], built[2])
+		if how == "ColorFromXYZ" {
+			c = displayp3.ColorFromXYZ(xyz)
+		}
+		c.R, c.G, c.B = now[0], now[1], now[2]
+		return c.ToXYZ(), true
+	}
+	return ciexyz.Color{}, false
+}
+
 func runC03(r *core.Run) {
 	r.Rule = "declared chromaticities vs published; 9+9 probed coefficients vs float64 derivation; lattice over [0,1]^3 (64^3 quick, 256^3 thorough) and seeded triples in [-1,2]^3 through linearity and both round trips; non-trivial = distinct triples with at least two non-zero channels"
 	r.Assumptions = []string{"published chromaticities as transcribed in props/c03.go (6- and 4-digit variants accepted)", "round-trip tolerance 2e-6 scales with max(1, |input|, |intermediate|) for out-of-range colours (proportional error, as stated)"}
@@ -222,7 +275,7 @@ func runC03(r *core.Run) {
 					check := func(dir string, got [3]float32, want refcolor.Vec) {
 						for i := 0; i < 3; i++ {
 							if !(math.Abs(float64(got[i])-want[i]) <= 1e-5) {
-								r.Violate("first-use", s.Name+"/first-use-"+dir, fmt.Sprintf("%s: the first %s conversions of the process (8 goroutines at once, variant %q) gave %v for %v, the declared primaries fix %v", s.Name, dir, r.Variant, got, in, want), c03Case{s.Name, "first-use", in})
+								r.Violate("first-use", s.Name+"/first-use-"+dir, fmt.Sprintf("%s: the first %s conversions of the process (8 goroutines at once, variant %q) gave %v for %v, the declared primaries fix %v", s.Name, dir, r.Variant, got, in, want), c03Case{s.Name, "first-use", in, nil})
 								return
 							}
 						}
@@ -295,7 +348,7 @@ func runC03(r *core.Run) {
 						nt++
 					}
 					if kind != "" {
-						r.Violate("point", s.Name+"/"+kind, msg, c03Case{s.Name, kind, in})
+						r.Violate("point", s.Name+"/"+kind, msg, c03Case{s.Name, kind, in, nil})
 					}
 				}
 			}
@@ -320,7 +373,7 @@ func runC03(r *core.Run) {
 						kind, msg, _ := c03Point(s, &p, in)
 						nb++
 						if kind != "" {
-							r.Violate("point", s.Name+"/"+kind, msg, c03Case{s.Name, kind, in})
+							r.Violate("point", s.Name+"/"+kind, msg, c03Case{s.Name, kind, in, nil})
 						}
 					}
 				}
@@ -331,7 +384,7 @@ func runC03(r *core.Run) {
 				kind, msg, _ := c03Point(s, &p, in)
 				nb++
 				if kind != "" {
-					r.Violate("point", s.Name+"/"+kind, msg, c03Case{s.Name, kind, in})
+					r.Violate("point", s.Name+"/"+kind, msg, c03Case{s.Name, kind, in, nil})
 				}
 			}
 			r.AddEvals(nb * 4)
@@ -360,7 +413,7 @@ func runC03(r *core.Run) {
 				kind, msg, _ := c03Point(s, &p, b)
 				nb++
 				if kind != "" {
-					r.Violate("point", s.Name+"/"+kind+"/after-near-duplicate", msg+fmt.Sprintf(" (called right after the same conversion of %v)", a), c03Case{s.Name, kind, b})
+					r.Violate("point", s.Name+"/"+kind+"/after-near-duplicate", msg+fmt.Sprintf(" (called right after the same conversion of %v)", a), c03Case{s.Name, kind, b, nil})
 				}
 			}
 			r.AddEvals(nb * 4)
@@ -370,7 +423,7 @@ func runC03(r *core.Run) {
 		{
 			rg := core.NewRNG(r.Seed, "C03", "large", s.Name)
 			var nb int64
-			for _, scale := range []float32{10, 100, 1000, 2047, 2049, 5000, 65536, 1e6, 1e9} {
+			for _, scale := range []float32{10, 100, 1000, 2047, 2049, 5000, 65536, 1e6, 1e9, 1e12, 1e15, 1e18, 3e19, 1e21, 1e24, 1e27, 1e30, 3e33} {
 				for i := 0; i < 60; i++ {
 					in := [3]float32{scale * float32(rg.Uniform(-1, 1)), scale * float32(rg.Uniform(-1, 1)), scale * float32(rg.Uniform(-1, 1))}
 					if i%4 == 0 {
@@ -379,11 +432,40 @@ func runC03(r *core.Run) {
 					kind, msg, _ := c03Point(s, &p, in)
 					nb++
 					if kind != "" {
-						r.Violate("point", s.Name+"/"+kind+"/large", msg, c03Case{s.Name, kind, in})
+						r.Violate("point", s.Name+"/"+kind+"/large", msg, c03Case{s.Name, kind, in, nil})
 					}
 				}
 			}
 			r.AddEvals(nb * 4)
+			r.NTCount(nb)
+		}
+		// the exported channels of a colour value are the colour: a value built by one constructor and
+		// then edited (gamut clip, scaling) converts as its channels say, not as it was built
+		{
+			rg := core.NewRNG(r.Seed, "C03", "edited", s.Name)
+			var nb int64
+			for i := 0; i < 3000; i++ {
+				built := [3]float32{float32(rg.Uniform(-0.2, 1.2)), float32(rg.Uniform(-0.2, 1.2)), float32(rg.Uniform(-0.2, 1.2))}
+				now := [3]float32{float32(rg.Uniform(-0.2, 1.2)), float32(rg.Uniform(-0.2, 1.2)), float32(rg.Uniform(-0.2, 1.2))}
+				if i%3 == 0 { // a gamut clip of what was built
+					c := s.FromXYZ(ciexyz.Color{X: built[0], Y: built[1], Z: built[2]})
+					now = [3]float32{clampF(c.R), clampF(c.G), clampF(c.B)}
+				}
+				for _, how := range []string{"ColorFromXYZ", "ColorFromLinear"} {
+					got, ok := c03EditedToXYZ(s.Name, how, built, now)
+					if !ok {
+						continue
+					}
+					want := p.fwd.MulV(refcolor.Vec{float64(now[0]), float64(now[1]), float64(now[2])})
+					d := math.Max(math.Abs(float64(got.X)-want[0]), math.Max(math.Abs(float64(got.Y)-want[1]), math.Abs(float64(got.Z)-want[2])))
+					nb++
+					if !(d <= c03Tol*math.Max(1, normInf3(now[0], now[1], now[2]))) {
+						r.Violate("point", s.Name+"/edited-after-"+how, fmt.Sprintf("%s: a Color built by %s(%v) whose R,G,B were then set to %v converts ToXYZ() = %v; its channels give %v", s.Name, how, built, now, got, want), c03Case{s.Name, "edited-after-" + how, now, &built})
+						break
+					}
+				}
+			}
+			r.AddEvals(nb)
 			r.NTCount(nb)
 		}
 		// random out-of-range triples
@@ -399,7 +481,7 @@ func runC03(r *core.Run) {
 					w = wv
 				}
 				if kind != "" {
-					r.Violate("point", s.Name+"/"+kind, msg, c03Case{s.Name, kind, in})
+					r.Violate("point", s.Name+"/"+kind, msg, c03Case{s.Name, kind, in, nil})
 				}
 			}
 			res2[sh] = w
@@ -413,10 +495,10 @@ func runC03(r *core.Run) {
 		}
 	}
 	if r.Variant == "" {
-		for _, v := range append([]string{"xyzfirst", "xyzfirst+rev@2", "rev@1", "burst+xyzfirst@4", "burst+xyzfirst+stagger@8"}, burstVariants...) {
+		for _, v := range append([]string{"xyzfirst", "xyzfirst+rev@2", "rev@1", "warm@2", "decfirst+encfirst@1", "burst+xyzfirst@4", "burst+xyzfirst+stagger@8"}, burstVariants...) {
 			r.RunVariantChild(v, 10*time.Minute, false)
 		}
-		r.Obs("fresh_process_variants", []string{"xyzfirst", "xyzfirst+rev@2", "rev@1"})
+		r.Obs("fresh_process_variants", []string{"xyzfirst", "xyzfirst+rev@2", "rev@1", "warm@2", "decfirst+encfirst@1"})
 	}
 	r.Obs("max_coefficient_error_per_space", maxCoef)
 	r.Obs("max_scaled_linearity_or_roundtrip_error_per_space", worst)
@@ -446,6 +528,13 @@ func replayC03(stage string, raw json.RawMessage) (bool, string, error) {
 		return false, "static checks hold", nil
 	}
 	p := c03Probe(s)
+	if cs.Built != nil && strings.HasPrefix(cs.Kind, "edited-after-") {
+		how := strings.TrimPrefix(cs.Kind, "edited-after-")
+		got, _ := c03EditedToXYZ(s.Name, how, *cs.Built, cs.In)
+		want := p.fwd.MulV(refcolor.Vec{float64(cs.In[0]), float64(cs.In[1]), float64(cs.In[2])})
+		d := math.Max(math.Abs(float64(got.X)-want[0]), math.Max(math.Abs(float64(got.Y)-want[1]), math.Abs(float64(got.Z)-want[2])))
+		return !(d <= c03Tol*math.Max(1, normInf3(cs.In[0], cs.In[1], cs.In[2]))), fmt.Sprintf("built by %s(%v), channels set to %v: ToXYZ() = %v, the channels give %v", how, *cs.Built, cs.In, got, want), nil
+	}
 	kind, msg, _ := c03Point(s, &p, cs.In)
 	return kind != "", msg, nil
 }
